@@ -8,7 +8,7 @@ under the structural laws `PrimLaws` (proved for the toy instance in Lemmas/ToyL
 OpenSSL/zlib/bzlib by the real-primitive harness).
 -/
 namespace Munge.C01
-open Munge.Cred Munge.Gen.Dec Munge.C
+open Munge.Cred Munge.Cred.B Munge.Gen.Dec Munge.C
 
 /-- a well-formed encode request as `m_msg_recv` delivers it: lengths agree with the byte strings, all
     integers in their C ranges -/
